@@ -7,7 +7,7 @@ def run(res):
         res, "c05", n,
         prop_files=["theories/Properties/C05.v"],
         model_files=["theories/Server/InstUnit.v"],
-        theorem_note="Properties/C05.v: C05_new_master_is_128bit_order (about the isNewMaster regenerated from /repo/server/server.go), C05_reported_is_running_max, C05_primary_is_latest_not_lower",
+        theorem_note="Properties/C05.v: C05_regenerated_isNewMaster / C05_new_master_is_128bit_order (isNewMaster regenerated from /repo/server/server.go on this run), C05_regenerated_runElection (runElection regenerated on this run = do_elect: result, curElecID/curMaster, stored id; the embedded call runs the regenerated isNewMaster), C05_history, C05_reported_is_running_max, C05_primary_is_latest_not_lower",
         trusted=["Coq 8.16.1 kernel + vm_compute", "tools/gen_decisions (Go AST serialiser) and Base/GoLite.v semantics",
                  "correspondence harness (fake Modify streams, barrier op), sequential per-message atomicity of the server model"],
         extra_runs=[("c05conc", 40 if res.tier == "quick" else 600)],
